@@ -200,8 +200,15 @@ extern "C" void vh_c01_polynomial() {
     a.setData(raw);
     std::vector<double> coef; if (deg > 0) coef.push_back(c0); if (deg > 1) coef.push_back(c1); if (deg > 2) coef.push_back(c2);
     bool with_origin = nixsym_choice("origin", 2) == 1;
+    // an earlier calibration (longer or shorter polynomial, other origin) must be replaced completely by the later one
+    uint32_t prev = nixsym_choice("prev", 3);
+    if (prev == 1) { a.polynomCoefficients({9.0, 8.0, 7.0, 6.0}); a.expansionOrigin(11.0); }
+    if (prev == 2) a.polynomCoefficients({9.0});
+    if (prev != 0 && deg == 0) a.polynomCoefficients(none);
+    if (prev == 1 && !with_origin) a.expansionOrigin(none);
     if (deg > 0) a.polynomCoefficients(coef);
     if (with_origin) a.expansionOrigin((double)o);
+    nixsym_assert(a.polynomCoefficients() == coef, "the coefficients read back are the ones set last");
     std::vector<double> cal; a.getData(cal);
     int64_t org = with_origin ? o : 0;
     for (int k = 0; k < 2; k++) {
